@@ -59,13 +59,18 @@ SizeBad == {"Sbad",     \* 1x, -1, 1_0, g, ... : not HEXDIG
 SizeDontCare == {"S1extlf"}  \* bare LF / CR inside a chunk extension
 SizeKinds == SizeOk \cup LastOk \cup SizeBad \cup SizeDontCare
 
-LineSyms == RLAll \cup HdrKinds \cup SizeKinds
+PxKinds == {"PX", "PXbad"}
+LineSyms == RLAll \cup HdrKinds \cup SizeKinds \cup PxKinds
 PAD == "P"     \* one more byte of line content (longer target / value / chunk extension)
 JUNK == "J"    \* a byte that is neither CR nor LF where the CRLF after chunk data should be
 
 -----------------------------------------------------------------------------
 (* Message descriptor:                                                     *)
-(*   [rl, hdrs: Seq(HdrKinds), fr: "none"|"len"|"chunked",                 *)
+(*   [px: "none" | "on_ok" | "on_bad" | "off_ok"  (a PROXY protocol v1 line  *)
+(*        before the request line; "on_*": proxy_protocol is enabled for    *)
+(*        the connection - decided by the first message - "off_ok": it is   *)
+(*        not; "*_bad": malformed PROXY line),                              *)
+(*    rl, hdrs: Seq(HdrKinds), fr: "none"|"len"|"chunked",                 *)
 (*    n: data bytes present for fr="len",                                  *)
 (*    chunks: Seq([sz: size symbol, n: data bytes present, term: BOOLEAN,  *)
 (*                 junk: JUNK bytes in place of a missing CRLF]),          *)
@@ -100,7 +105,8 @@ FlatBody(m) ==
                       \o FlatLines(m.trl, m.pad.t) \o <<CR, LF>>)
     [] OTHER -> <<>>
 
-HeadSyms(m) == <<m.rl>> \o Rep(PAD, m.pad.rl) \o <<CR, LF>> \o FlatLines(m.hdrs, m.pad.h) \o <<CR, LF>>
+PxSyms(m) == IF m.px = "none" THEN <<>> ELSE <<(IF m.px = "on_bad" THEN "PXbad" ELSE "PX"), CR, LF>>
+HeadSyms(m) == PxSyms(m) \o <<m.rl>> \o Rep(PAD, m.pad.rl) \o <<CR, LF>> \o FlatLines(m.hdrs, m.pad.h) \o <<CR, LF>>
 FlatMsg(m) == HeadSyms(m) \o FlatBody(m)
 
 RECURSIVE FlatAll(_)
@@ -115,6 +121,12 @@ Has(hs, K) == \E i \in DOMAIN hs : hs[i] \in K
 (*   application and nothing after it may be parsed.                       *)
 (* "dc": the RFC leaves the recipient a choice (refuse, or natural framing)*)
 (* "ok": must be framed as returned.                                       *)
+(* a PROXY line is part of the connection preamble: acceptable only as the very first line of the
+   connection and only when the protocol is enabled; anywhere else it is a malformed request line *)
+PxOk(m, first, proxyOn) == m.px = "none" \/ (m.px = "on_ok" /\ first /\ proxyOn)
+
+HeadVerdictPx(m, first, proxyOn) == IF ~PxOk(m, first, proxyOn) THEN "reject" ELSE "ok"
+
 HeadVerdict(m) ==
   LET hs == m.hdrs
       nCL == Count(hs, CLKinds)
@@ -180,11 +192,11 @@ BodyRead(m, off) ==
 
 (* Strict(ms): per message [hv, bv, start, hend, data, end, close].        *)
 (* Messages after the first one that is refused or closes are not read.    *)
-RECURSIVE StrictFrom(_, _)
-StrictFrom(ms, off) ==
+RECURSIVE StrictFrom(_, _, _, _)
+StrictFrom(ms, off, first, proxyOn) ==
   IF ms = <<>> THEN <<>>
   ELSE LET m == Head(ms)
-           hv == HeadVerdict(m)
+           hv == IF HeadVerdictPx(m, first, proxyOn) = "reject" THEN "reject" ELSE HeadVerdict(m)
            hend == off + Len(HeadSyms(m))
        IN IF hv = "reject"
           THEN << [hv |-> "reject", bv |-> "ok", start |-> off, hend |-> hend, data |-> <<>>,
@@ -193,9 +205,10 @@ StrictFrom(ms, off) ==
                    rec == [hv |-> hv, bv |-> b.v, start |-> off, hend |-> hend, data |-> b.data,
                            end |-> hend + b.len, close |-> HeadClose(m)]
                IN IF b.v = "reject" \/ HeadClose(m) THEN <<rec>>
-                  ELSE <<rec>> \o StrictFrom(Tail(ms), hend + b.len)
+                  ELSE <<rec>> \o StrictFrom(Tail(ms), hend + b.len, FALSE, proxyOn)
 
-Strict(ms) == StrictFrom(ms, 0)
+ProxyOn(ms) == ms # <<>> /\ ms[1].px \in {"on_ok", "on_bad"}
+Strict(ms) == StrictFrom(ms, 0, TRUE, ProxyOn(ms))
 
 (* Generator discipline: the bytes after a head are laid out according to  *)
 (* the framing the strict reading derives (so that the stream has exactly  *)
